@@ -436,9 +436,67 @@ fn read_exactly(password: &str, file: &[u8], n: usize) -> Result<Vec<u8>, String
     }
 }
 
+/// D25 on the real code: a value saved through `CryptoWriter` whose plaintext carries, from the start of its second
+/// chunk on, the image of another complete file.  With the stored nonce advanced by one and the first frame removed,
+/// does the file load — and as what?
+fn position_binding_probe(r: &mut Rng) -> Vec<String> {
+    use std::io::Write;
+    let mut out = vec!["#stat cw-position-binding-probes 1".to_string()];
+    let inner: Vec<u8> = (0..(3 + r.below(20))).map(|_| r.next() as u8).collect();
+    let inner_file = match catch_unwind(AssertUnwindSafe(|| savefile::save_to_mem(0, &inner))) {
+        Ok(Ok(b)) => b,
+        _ => return out,
+    };
+    // plaintext of `save(outer)`: 16 bytes header, schema of Vec<u8>, 8 byte length, the bytes
+    let probe = savefile::save_to_mem(0, &Vec::<u8>::new()).unwrap();
+    let before = probe.len(); // header + schema + length word
+    let mut outer: Vec<u8> = vec![0x55; 100_000 - before];
+    outer.extend_from_slice(&inner_file);
+    outer.extend((0..(r.below(300) as usize)).map(|i| i as u8));
+    let mut stream: Vec<u8> = Vec::new();
+    let wrote = catch_unwind(AssertUnwindSafe(|| -> Result<(), String> {
+        let mut w = savefile::CryptoWriter::new(&mut stream, key_of(PASSWORD)).map_err(|e| err_class(&e))?;
+        savefile::save(&mut w, 0, &outer).map_err(|e| err_class(&e))?;
+        w.flush().map_err(|e| e.to_string())?;
+        w.flush_final().map_err(|e| err_class(&e))
+    }));
+    if !matches!(wrote, Ok(Ok(()))) {
+        return out;
+    }
+    let b = boundaries(&stream);
+    if b.len() < 3 {
+        return out;
+    }
+    // the stored counter start, advanced once
+    let mut d1 = u64::from_le_bytes(stream[..8].try_into().unwrap());
+    let mut d2 = u32::from_le_bytes(stream[8..12].try_into().unwrap());
+    let _ = advance(&mut d1, &mut d2);
+    let mut tampered = Vec::new();
+    tampered.extend_from_slice(&d1.to_le_bytes());
+    tampered.extend_from_slice(&d2.to_le_bytes());
+    tampered.extend_from_slice(&stream[b[1]..]);
+    let loaded = catch_unwind(AssertUnwindSafe(|| {
+        let mut cur = std::io::Cursor::new(&tampered[..]);
+        let mut rd = savefile::CryptoReader::new(&mut cur, key_of(PASSWORD))?;
+        savefile::load::<Vec<u8>>(&mut rd, 0)
+    }));
+    match loaded {
+        Ok(Ok(v)) => out.push(format!(
+            "!C14 first-frame-removed-and-stored-nonce-advanced-loads-as-another-value saved-len={} loaded-len={} loaded-is-the-embedded-value={}",
+            outer.len(), v.len(), v == inner
+        )),
+        Ok(Err(_)) => {}
+        Err(_) => out.push(format!("!C14 tampered-file-panics change=first-frame-removed got={}", panic_class(&last_panic()))),
+    }
+    out
+}
+
 pub fn cw_cases(r: &mut Rng, n: usize) -> Vec<String> {
     use std::io::Write;
     let mut out = Vec::new();
+    for _ in 0..(1 + n / 100) {
+        out.extend(position_binding_probe(r));
+    }
     for _ in 0..n {
         let ops = cw_program(r);
         let mut data: Vec<u8> = Vec::new();
